@@ -241,11 +241,11 @@ func slotType(a *Agg, i int) types.Type {
 type abortKind int
 
 const (
-	abUnsupported abortKind = iota
-	abInfeasible            // assumption made the path infeasible: silently dropped
-	abBudget                // instruction/unwinding budget exhausted
-	abInconclusive          // solver gave up on something that matters
-	abStop                  // harness asked to stop (vStop) or assertion failed terminally
+	abUnsupported  abortKind = iota
+	abInfeasible             // assumption made the path infeasible: silently dropped
+	abBudget                 // instruction/unwinding budget exhausted
+	abInconclusive           // solver gave up on something that matters
+	abStop                   // harness asked to stop (vStop) or assertion failed terminally
 	abDeadlock
 )
 
